@@ -265,6 +265,12 @@ class TFLiteSerialiser:
         assert not (buf_id == TFLiteSerialiser.BUF_IDX_ZERO and values is not None)
         self.buffers_to_write[buf_id] = None if values is None else values.flatten().view(np.uint8)
 
+        if any(not -(2**31) <= int(e) < 2**31 for e in tens_shape):
+            # e.g. the tensor arena of a network compiled with a huge --cpu-tensor-alignment
+            raise VelaError(
+                f"Tensor '{tens.name}' with shape {[int(e) for e in tens_shape]} cannot be written: "
+                "a dimension does not fit the 32-bit shape field of a TensorFlow Lite file"
+            )
         shape = self.write_int_vector(tens_shape)
 
         name = builder.CreateString(tens.name)
